@@ -9,7 +9,8 @@ expression tree on the inputs current at that moment.
 
 Node ids are the model's: `lit`, `rootp`, `bind`, `where` allocate one node;
 `op` allocates two (the copy made by `_resolve_accessor`, then the derived
-node); `meth` allocates three (two copies, then the derived node).  Parameter
+node); `meth` allocates three (two copies, then the derived node); `meth2`
+(one accessor object called twice) allocates five.  Parameter
 ids: `lit` allocates one (Wrapper.object), `obj` one per value, `where` one
 (the Trigger's Event).
 """
@@ -42,7 +43,7 @@ TRUSTED = [
     'spec side lean/ParamVerif/Rx/Spec.lean: direct evaluator `eval` (pipeline object first, then operands left to right; helpers strict), `specStep`/`meets`/`checkProg` oracle',
     'Driver/C09.lean: Python semantics of the operators on None/bool/int/str/list (`pyApply`, `pyEq`, `truthy`) - every oracle verdict on the implementation exercises it against CPython',
     'harness/props/c09.py adapter (builds the program on the real param.rx, reports value / exception class of every read, callbacks per update) and extract() (ast walk over class rx)',
-    'list of dunders Python can dispatch (Props/C09.lean `dispatchable`)',
+    'list of dunders Python can dispatch (Props/C09.lean `dispatchable`; excluded on purpose: __round__, __contains__, __iter__, __bool__, __len__, __call__ - see the docstring) and of helpers (`requiredHelpers`)',
     'correspondence is differential testing: model = code only on the programs executed',
     'CPython: operator dispatch to reflected dunders, small-int / bool / None identity for `is`',
 ]
@@ -51,15 +52,19 @@ ASSUMPTIONS = [
     'an exception is identified by its class; when several sub-expressions fail, the one reported is that of pipeline-order evaluation (object, then operands left to right)',
     '.rx.and_/.rx.or_ and the other helpers are strict functions of their evaluated operands (no short-circuit claimed)',
     'operands that are containers of references (a list of rx / Parameters / literals, a slice lo:hi with such bounds) are modelled flattened: their references are collected and their values resolved left to right exactly as resolve_ref / resolve_value(recursive) do, and the semantics of the operation packs the values back (Driver/C09.lean pyApply, `#shape` suffix); only for operations (not bind / where / method-call arguments); tuples, dicts and deeper nesting are not generated',
+    'bind(f, *args, **kwargs): keyword arguments are modelled as further operands after the positional ones (the dependency order and evaluation order of bind()), their names travel in the function name (`#k=x,y`) and the semantics of the two keyword-taking user functions kwpair / kwsub binds them by name (Driver/C09.lean pyApply)',
+    'method calls: `expr.method(args)` (`meth`) and one accessor object called twice, `acc = expr.method; acc(a); acc(b)` (`meth2`); an accessor kept across other statements or called more than twice is not generated',
+    'inputs are assigned fresh objects: mutating a list in place and re-assigning the same object is outside the model (param then sees old is new, nothing is invalidated - the documented onlychanged contract; use param.trigger)',
     'a Parameter(allow_refs=True) holding an expression as a reference (`ref` / `readref` statements): its `_sync_refs` watcher is modelled as a precedence -1 consumer that runs after all invalidations and before the precedence 0 watchers; that the holder mirrors the expression is checked by correspondence and by the oracle, there is no theorem about it; when an exception escapes an update in a program with holders the program ends there (the real dispatch then also skips the invalidation watchers registered after the raising `_sync_refs`, which is not modelled)',
     'not modelled: async / generator operations (internal Trigger), plain attribute access (`expr.attr`; on the clean tree `m = z.imag; m + 1` resets `m._method` so that `m.rx.value` is then the whole object - verified by hand, outside this model), kwargs, raw bound functions (not wrapped in rx) as operands, rx.when/buffer/updating/resolve, batched updates of several parameters',
     'an input update is atomic for precedence -1 watchers (all invalidations run before any precedence 0 consumer) - checked by correspondence, not proved',
     'operator_table_complete (over the generated RxOps table) lives in the same module as the other theorems: a broken table makes the whole module fail to build, so the evidence then reports every C09 obligation as undischarged, not only that one',
-    'the full statement is false of the code (C09_full_refuted); what is proved is C09_partial under H1 (no where result handed to a consumer), H2 (is_equal does not identify different values), H3 (no exception escapes an input update) - the three known findings',
+    'the full statement is false of the code (C09_full_refuted); what is proved is C09_partial under H1 (no where result handed to a consumer), H2 (EqOK: every update that is_equal takes for unchanged stores the same value - a hypothesis on the history, satisfiable for Python\'s Comparator), H3 (no exception escapes an input update) - three of the known findings; the fourth (`x in expr`) is mirrored by the model as written (Stmt.isin) and flagged by the oracle',
+    'helpers_table_complete / operator_table_complete certify which function each helper / dunder hands to _apply_operator (generated tables); that the driver (formOp) and the harness (_apply_form, _sem) use the same functions is tied by correspondence',
 ]
 RULE = ('corpus + directed prefix (every API form on a root of each type with literal / rx / Parameter operand, error-recovery, shared '
-        'sub-expressions, input as root and operand, bind, where in both branches, watch, None roots, container operands, reference holders, minimal forms of the known findings) '
-        '+ all histories of length <=3 (<=4 thorough) over a fixed alphabet for 5 expression shapes + random typed programs '
+        'sub-expressions, input as root and operand, bind (positional and keyword arguments), where in both branches, a where with a shared prefix and two readers, watch, None roots, container operands, reference holders, an accessor called twice, minimal forms of the known findings) '
+        '+ all histories of length <=3 (<=4 thorough) over a fixed alphabet for 6 expression shapes + random typed programs '
         '(1-6 inputs, <=9 user expressions = <=27 model nodes, 6-28 interleaved create/update/read/watch/ref/readref statements, list and slice operands holding references; 15% may hand a '
         'where result to a consumer, 4% cross bool/int updates, 6% ill-typed operations); every statement outcome is compared with the '
         'model and checked by the oracle. non-trivial = applicable program with >=3 oracle-checked steps and a successful read after '
@@ -87,6 +92,10 @@ def _user_fn(name):
         return len
     if name in ('and', 'or'):
         return (lambda a, b: a and b) if name == 'and' else (lambda a, b: a or b)
+    if name == 'kwpair':                 # functions taking keyword arguments (bind(f, x=a, y=b))
+        return lambda x, y: [x, y]
+    if name == 'kwsub':
+        return lambda x, y: x - y
     return getattr(operator, name)
 
 
@@ -161,7 +170,7 @@ def run_impl(case):
     try:
         for st in case['prog']:
             s = st['s']
-            if s in ('lit', 'rootp', 'op', 'meth', 'bind', 'where'):
+            if s in ('lit', 'rootp', 'op', 'meth', 'meth2', 'bind', 'where'):
                 try:
                     if s == 'lit':
                         r = rx(dec(st['v']))
@@ -176,8 +185,16 @@ def run_impl(case):
                     elif s == 'meth':
                         d = getattr(w.nodes[st['n']], st['op'])(*[w.arg(a) for a in st['args']])
                         w.nodes += [None, None, d]
+                    elif s == 'meth2':
+                        # one accessor object, called twice
+                        acc = getattr(w.nodes[st['n']], st['op'])
+                        d1 = acc(*[w.arg(a) for a in st['args']])
+                        w.nodes += [None, None, d1]
+                        d2 = acc(*[w.arg(a) for a in st['args2']])
+                        w.nodes += [None, d2]
                     elif s == 'bind':
-                        w.nodes.append(rx(param.bind(_user_fn(st['f']), *[w.arg(a) for a in st['args']])))
+                        w.nodes.append(rx(param.bind(_user_fn(st['f']), *[w.arg(a) for a in st['args']],
+                                                     **{k: w.arg(a) for k, a in st.get('kw', [])})))
                     else:
                         c = st['c']
                         if 'n' in c:
@@ -241,6 +258,11 @@ def run_impl(case):
                     break
             elif s == 'readref':
                 steps.append({'k': 'read', 'v': enc(w.holders[st['h']].v)})
+            elif s == 'isin':
+                try:
+                    steps.append({'k': 'read', 'v': enc(dec(st['v']) in w.nodes[st['n']])})   # the plain `in` operator
+                except Exception as e:
+                    steps.append({'k': 'readErr', 'e': exc_name(e)})
             else:
                 raise RuntimeError('unknown statement ' + s)
         return {'steps': steps}
@@ -250,7 +272,7 @@ def run_impl(case):
 
 # ---------------------------------------------------------------- bookkeeping shared by generator / shrinker / classifier
 
-NODES_OF = {'lit': 1, 'rootp': 1, 'op': 2, 'meth': 3, 'bind': 1, 'where': 1}
+NODES_OF = {'lit': 1, 'rootp': 1, 'op': 2, 'meth': 3, 'meth2': 5, 'bind': 1, 'where': 1}
 
 
 def _allocs(st):
@@ -270,8 +292,8 @@ def _flat(a):
 
 def _args_of(st):
     s = st['s']
-    if s in ('op', 'meth', 'bind'):
-        return [y for a in st['args'] for y in _flat(a)]
+    if s in ('op', 'meth', 'meth2', 'bind'):
+        return [y for a in st['args'] for y in _flat(a)] + [a for _, a in st.get('kw', [])] + list(st.get('args2', []))
     if s == 'where':
         return [st['c'], st['x'], st['y']]
     return []
@@ -282,7 +304,7 @@ def where_family(prog):
     fam, nid = set(), 0
     for st in prog:
         k, _ = _allocs(st)
-        if st['s'] == 'where' or (st['s'] in ('op', 'meth') and st['n'] in fam):
+        if st['s'] == 'where' or (st['s'] in ('op', 'meth', 'meth2') and st['n'] in fam):
             fam.update(range(nid, nid + k))
         nid += k
     return fam
@@ -432,6 +454,13 @@ def _apply_shadow(sh, st):
     elif s == 'rootp':
         sh.nodes.append(lambda p=st['p']: sh.vals[p])
         sh.user.append(len(sh.nodes) - 1)
+    elif s == 'meth2':
+        subj = sh.nodes[st['n']]
+        for key in ('args', 'args2'):
+            afs = [sh.arg_fn(a) for a in st[key]]
+            sh.nodes += [subj, subj] if key == 'args' else [subj]
+            sh.nodes.append(lambda subj=subj, afs=afs, name=st['op']: getattr(subj(), name)(*[a() for a in afs]))
+            sh.user.append(len(sh.nodes) - 1)
     elif s in ('op', 'meth'):
         subj = sh.nodes[st['n']]
         afs = [sh.arg_fn(a) for a in st['args']]
@@ -449,8 +478,9 @@ def _apply_shadow(sh, st):
         sh.user.append(len(sh.nodes) - 1)
     elif s == 'bind':
         afs = [sh.arg_fn(a) for a in st['args']]
+        kfs = [(k, sh.arg_fn(a)) for k, a in st.get('kw', [])]
         f = _user_fn(st['f'])
-        sh.nodes.append(lambda afs=afs, f=f: f(*[a() for a in afs]))
+        sh.nodes.append(lambda afs=afs, kfs=kfs, f=f: f(*[a() for a in afs], **{k: a() for k, a in kfs}))
         sh.user.append(len(sh.nodes) - 1)
     elif s == 'where':
         c, x, y = sh.arg_fn(st['c']), sh.arg_fn(st['x']), sh.arg_fn(st['y'])
@@ -569,7 +599,10 @@ class _Gen:
                 for a in _args_of(st):
                     sup |= self.supp.get(a['n'], set()) if 'n' in a else ({a['p']} if 'p' in a else set())
             self.supp[new] = sup
-            if st['s'] == 'where' or (st['s'] in ('op', 'meth') and st['n'] in self.fam):
+            if st['s'] == 'meth2':               # the first call's expression
+                self.ntype[new - 2] = rtype
+                self.supp[new - 2] = sup
+            if st['s'] == 'where' or (st['s'] in ('op', 'meth', 'meth2') and st['n'] in self.fam):
                 self.fam.update(range(mark[0], len(sh.nodes)))
         if st['s'] == 'lit':
             self.ptype.append(rtype)
@@ -600,6 +633,16 @@ class _Gen:
             if rng.random() < 0.5:
                 k = rng.randint(1, 3)
                 return self.push({'s': 'bind', 'f': 'mklist', 'args': [self.operand('int') for _ in range(k)]}, 'ilist')
+            if rng.random() < 0.45:
+                # keyword arguments, mostly reactive ones, in either order / one positional
+                f, rt = rng.choice([('kwpair', 'ilist'), ('kwsub', 'int')])
+                a, b = self.operand('int'), self.operand('int')
+                shape = rng.random()
+                if shape < 0.4:
+                    return self.push({'s': 'bind', 'f': f, 'args': [], 'kw': [['x', a], ['y', b]]}, rt)
+                if shape < 0.8:
+                    return self.push({'s': 'bind', 'f': f, 'args': [], 'kw': [['y', b], ['x', a]]}, rt)
+                return self.push({'s': 'bind', 'f': f, 'args': [a], 'kw': [['y', b]]}, rt)
             return self.push({'s': 'bind', 'f': 'add', 'args': [self.operand(t), self.operand(t)]}, t)
         if r < 0.32:
             t = rng.choice(['int', 'int', 'str', 'bool', 'ilist'])
@@ -619,6 +662,9 @@ class _Gen:
             form, ots, rt = rng.choice(TABLE[t])
         args = [self.operand(o, container=not form.startswith('m:')) for o in ots]
         if form.startswith('m:'):
+            if rng.random() < 0.3:               # acc = expr.method; acc(...); acc(...)
+                args2 = [self.operand(o) for o in ots]
+                return self.push({'s': 'meth2', 'n': subj, 'op': form[2:], 'args': args, 'args2': args2}, rt)
             return self.push({'s': 'meth', 'n': subj, 'op': form[2:], 'args': args}, rt)
         return self.push({'s': 'op', 'n': subj, 'op': form, 'args': args}, rt)
 
@@ -673,6 +719,10 @@ class _Gen:
             self.prog.append({'s': 'readref', 'h': h})
         for n in self.sh.user[-4:]:
             self.prog.append({'s': 'read', 'n': n})
+        if rng.random() < 0.05:
+            # the plain `in` operator (known finding) - last, so that it cannot mask anything else
+            n = rng.choice(self.sh.user)
+            self.prog.append({'s': 'isin', 'n': n, 'v': enc(_value(rng, 'str' if self.ntype.get(n) == 'str' else 'int'))})
         return {'prog': self.prog}
 
 
@@ -747,6 +797,28 @@ def _directed():
     out.append({'prog': [{'s': 'obj', 'vs': [1, 2]}, {'s': 'bind', 'f': 'add', 'args': [P(0), P(1)]}, {'s': 'ref', 'n': 0},
                          st(1, 5), {'s': 'readref', 'h': 0}, op(0, 'mul', P(0)), {'s': 'ref', 'n': 2}, st(0, 3),
                          {'s': 'readref', 'h': 0}, {'s': 'readref', 'h': 1}]})
+    # bind with keyword arguments: two reactive ones (update the first, then the second), mixed with a Parameter / positional
+    for kws in ([['x', N(0)], ['y', N(1)]], [['y', N(1)], ['x', N(0)]]):
+        out.append({'prog': [lit(10), lit(3), {'s': 'bind', 'f': 'kwsub', 'args': [], 'kw': kws}, rd(2), st(0, 20), rd(2), st(1, 5), rd(2),
+                             {'s': 'watch', 'n': 2}, st(0, 30), st(1, 6), op(2, 'mul', L(2)), rd(4), st(0, 1), rd(4), rd(2)]})
+    out.append({'prog': [lit(10), lit(3), op(0, 'add', L(1)), op(1, 'mul', L(2)), {'s': 'obj', 'vs': [7]},
+                         {'s': 'bind', 'f': 'kwpair', 'args': [], 'kw': [['x', N(3)], ['y', N(5)]]}, rd(6), st(0, 0), rd(6), st(1, 1), rd(6),
+                         {'s': 'bind', 'f': 'kwsub', 'args': [N(3)], 'kw': [['y', P(2)]]}, rd(7), st(2, 1), rd(7), st(0, 5), rd(7),
+                         {'s': 'bind', 'f': 'kwpair', 'args': [], 'kw': [['x', N(6)], ['y', N(7)]]}, rd(8), st(1, 9), rd(8), st(2, 0), rd(8)]})
+    # a where with reactive branches in pipeline position, a shared prefix and two readers downstream of it
+    for c0 in (True, False):
+        out.append({'prog': [lit(c0), lit(1), lit(2), {'s': 'where', 'c': N(0), 'x': N(1), 'y': N(2)}, op(3, 'add', L(100)),
+                             op(5, 'mul', L(2)), op(5, 'mul', L(3)), rd(7), rd(9), rd(5), st(1, 10), rd(7), rd(9), rd(5),
+                             st(2, 20), rd(9), rd(7), rd(5), rd(3), st(0, not c0), rd(5), st(1, 11), st(2, 21), rd(9), rd(5), rd(7)]})
+    # one method accessor object called twice (`acc = s.count; acc('a'); acc(b)`), before and after updates
+    out.append({'prog': [lit('abcab'), lit('b'), {'s': 'meth2', 'n': 0, 'op': 'count', 'args': [L('a')], 'args2': [N(1)]}, rd(4), rd(6),
+                         st(0, 'bbb'), rd(6), rd(4), st(1, 'bb'), rd(6), st(0, 5), rd(4), rd(6), st(0, 'a'), rd(4), rd(6)]})
+    out.append({'prog': [lit([1, 2, 1]), {'s': 'meth2', 'n': 0, 'op': 'index', 'args': [L(2)], 'args2': [L(7)]}, rd(3), rd(5),
+                         st(0, [7]), rd(3), rd(5), {'s': 'meth2', 'n': 0, 'op': 'count', 'args': [L(7)], 'args2': [L(1)]}, rd(8), rd(10)]})
+    out.append({'prog': [lit('ab'), {'s': 'meth2', 'n': 0, 'op': 'upper', 'args': [], 'args2': []}, rd(3), rd(5), st(0, 'c'), rd(5), rd(3)]})
+    # the plain `in` operator on an expression (known finding: rx has no __contains__)
+    out.append({'prog': [lit([1, 2, 3]), {'s': 'isin', 'n': 0, 'v': 3}, {'s': 'isin', 'n': 0, 'v': 9}, st(0, []), {'s': 'isin', 'n': 0, 'v': 9},
+                         st(0, 5), {'s': 'isin', 'n': 0, 'v': 5}, lit('abc'), op(1, 'add', L('d')), {'s': 'isin', 'n': 3, 'v': 'z'}]})
     # error, cached error, recovery; an error below a derived node
     out.append({'prog': [lit(0), op(0, 'rfloordiv', L(10)), rd(2), rd(2), st(0, 5), rd(2), st(0, 0), rd(2), st(0, 2),
                          op(2, 'add', L(1)), rd(4), st(0, 0), rd(4), rd(2), st(0, 1), rd(4)]})
@@ -803,6 +875,9 @@ def _small_scope(tier):
         ([lit(True), lit(1), lit(2), {'s': 'where', 'c': N(0), 'x': N(1), 'y': N(2)}, op(3, 'add', L(100))],
          [st(0, False), st(0, True), st(1, 5), st(2, 7), rd(3), rd(5)]),
         ([lit(1), op(0, 'add', N(0)), op(2, 'mul', N(0)), {'s': 'watch', 'n': 4}], [st(0, 2), st(0, 3), rd(2), rd(4), rd(0)]),
+        ([lit(True), lit(1), lit(2), {'s': 'where', 'c': N(0), 'x': N(1), 'y': N(2)}, op(3, 'add', L(100)), op(5, 'mul', L(2)),
+          op(5, 'mul', L(3)), rd(7), rd(9), rd(5)],
+         [st(1, 5), st(2, 7), st(0, False), rd(7), rd(9), rd(5)]),
         ([{'s': 'obj', 'vs': [2, 3]}, {'s': 'bind', 'f': 'add', 'args': [P(0), P(1)]}, op(0, 'rsub', P(0))],
          [st(0, 5), st(1, 7), st(1, 'x'), rd(0), rd(2)]),
         ([lit('abc'), lit(1), op(0, 'getitem', N(1)), op(3, 'm:upper')], [st(0, 'b'), st(1, 2), st(1, 0), rd(3), rd(6)]),
@@ -836,8 +911,8 @@ def cases(rng, tier, worker, nworkers):
 COVERAGE_TARGETS = ['form:' + f for f in ALL_FORMS] + [
     'resolve:cache-hit', 'resolve:dirty', 'resolve:dirty+dirty_obj', 'resolve:error-cached', 'read:raises', 'read:value',
     'set:changed', 'set:identical', 'set:equal-not-identical', 'set:callbacks', 'set:raises',
-    'consumer:trigger_x', 'consumer:trigger_y', 'consumer:watch', 'consumer:sync_refs', 'ref:created', 'readref:value', 'op:reverse', 'arg:rx', 'arg:parameter', 'arg:literal', 'arg:list-of-references', 'arg:slice-of-references',
-    'op:on-where', 'op:on-bind', 'op:on-root', 'op:on-derived', 'op:createErr', 'meth:created', 'bind:created', 'where:created',
+    'consumer:trigger_x', 'consumer:trigger_y', 'consumer:watch', 'consumer:sync_refs', 'ref:created', 'readref:value', 'isin:value', 'isin:raises', 'op:reverse', 'arg:rx', 'arg:parameter', 'arg:literal', 'bind:keyword-arguments', 'arg:list-of-references', 'arg:slice-of-references',
+    'op:on-where', 'op:on-bind', 'op:on-root', 'op:on-derived', 'op:createErr', 'meth:created', 'meth:accessor-called-twice', 'bind:created', 'where:created',
     'rootp:created', 'read:where-family', 'read:bind-family', 'recovered-after-error', 'where-ref-free', 'where-referenced']
 
 
@@ -850,10 +925,14 @@ def tags(case, impl):
                 t.append('arg:list-of-references' if any('l' not in x for x in a['L']) else 'arg:list-of-literals')
             elif 'S' in a:
                 t.append('arg:slice-of-references' if any('l' not in x for x in a['S']) else 'arg:slice-of-literals')
+        if s['s'] == 'bind' and s.get('kw'):
+            t.append('bind:keyword-arguments')
         if s['s'] == 'op':
             t.append('form:' + s['op'])
-        elif s['s'] == 'meth':
+        elif s['s'] in ('meth', 'meth2'):
             t.append('form:m:' + s['op'])
+            if s['s'] == 'meth2':
+                t.append('meth:accessor-called-twice')
     if isinstance(impl, dict) and 'steps' in impl:
         failed = set()
         for s, o in zip(prog, impl['steps']):
@@ -910,6 +989,10 @@ def _renumber(st, n0, nk, p0, pk):
             st['p'] = par(st['p'])
         if 'args' in st:
             st['args'] = [arg(a) for a in st['args']]
+        if 'kw' in st:
+            st['kw'] = [[k, arg(a)] for k, a in st['kw']]
+        if 'args2' in st:
+            st['args2'] = [arg(a) for a in st['args2']]
         for k in ('c', 'x', 'y'):
             if k in st:
                 st[k] = arg(st[k])
@@ -1001,6 +1084,10 @@ def classify(case, impl, fail):
     at = _failing_index(fail)
     if at is None:
         return None
+    if at < len(prog) and prog[at]['s'] == 'isin':
+        # the failing statement is `x in expr` itself and the implementation answered with a bool
+        o = impl['steps'][at] if at < len(impl['steps']) else {}
+        return 'in-operator-answers-nonempty' if o.get('k') == 'read' and isinstance(o.get('v'), bool) else None
     raised = [i for i, o in enumerate(impl['steps']) if o['k'] == 'set' and o.get('e')]
     if raised and raised[0] <= at:
         i = raised[0]
@@ -1076,6 +1163,45 @@ def _shape(fn):
     return f, reverse, len(params) == 1
 
 
+def _helper_shape(fn):
+    """(applied function, reverse) of a `reactive_ops` helper whose last statement is
+    `return self._as_rx()._apply_operator(F, ...)`; F is rendered as
+      dotted name                     operator.contains / bool / len
+      lambda:<source>                 lambda obj, other: obj and other
+      param:<name>                    the helper's own parameter (pipe)
+      local:<returned expression>     a nested def (map: `[func(v, *args, **kwargs) for v in vs]`)"""
+    body = [b for b in fn.body]
+    if not body or not isinstance(body[-1], ast.Return) or not isinstance(body[-1].value, ast.Call):
+        return None
+    call = body[-1].value
+    if not (isinstance(call.func, ast.Attribute) and call.func.attr == '_apply_operator'
+            and isinstance(call.func.value, ast.Call) and _dotted(call.func.value.func) == 'self._as_rx') or not call.args:
+        return None
+    f = call.args[0]
+    params = [a.arg for a in fn.args.posonlyargs + fn.args.args]
+    if isinstance(f, ast.Lambda):
+        name = 'lambda:' + ast.unparse(f)
+    else:
+        d = _dotted(f)
+        if d is None:
+            return None
+        local = [n for n in ast.walk(fn) if isinstance(n, ast.FunctionDef) and n is not fn and n.name == d]
+        if d in params:
+            name = 'param:' + d
+        elif local:
+            ret = [n for n in ast.walk(local[-1]) if isinstance(n, ast.Return)]
+            name = 'local:' + (ast.unparse(ret[-1].value) if ret and ret[-1].value is not None else '?')
+        else:
+            name = d
+    reverse = False
+    for kw in call.keywords:
+        if kw.arg == 'reverse':
+            if not isinstance(kw.value, ast.Constant) or not isinstance(kw.value.value, bool):
+                return None
+            reverse = kw.value.value
+    return name, reverse
+
+
 def _lean_str(s):
     return '"' + s.replace('\\', '\\\\').replace('"', '\\"') + '"'
 
@@ -1101,6 +1227,16 @@ def extract():
                 f, rev, unary = sh
                 entries[fn.name] = (fn.name, f, rev, unary, _resolves(f), True)
     rows = [entries[k] for k in sorted(entries)]
+    # the stateless helpers of `reactive_ops`
+    ops = next((n for n in tree.body if isinstance(n, ast.ClassDef) and n.name == 'reactive_ops'), None)
+    helpers = []
+    if ops is not None:
+        for fn in ops.body:
+            if isinstance(fn, ast.FunctionDef) and not fn.name.startswith('_') and \
+                    any(isinstance(n, ast.Attribute) and n.attr == '_apply_operator' for n in ast.walk(fn)):
+                sh = _helper_shape(fn)
+                helpers.append((fn.name, sh[0], sh[1], True) if sh else (fn.name, '', False, False))
+    helpers.sort()
     b = lambda x: 'true' if x else 'false'
     lines = ['/- GENERATED by harness/props/c09.py extract() from param/reactive.py (class rx) — do not edit.',
              '   One entry per dunder method of `class rx` that calls `self._apply_operator`:',
@@ -1123,6 +1259,18 @@ def extract():
              'def table : List Entry := [']
     lines += ['  ' + ',\n  '.join(
         f'⟨{_lean_str(d)}, {_lean_str(f)}, {b(r)}, {b(u)}, {b(e)}, {b(k)}⟩' for d, f, r, u, e, k in rows)] if rows else []
+    lines += [']', '',
+              '/-- one entry per public method of `reactive_ops` that calls `_apply_operator`:',
+              '    (helper, the function it applies, reverse flag, was the body of the recognised shape?) -/',
+              'structure Helper where',
+              '  name : String',
+              '  fn : String',
+              '  reverse : Bool',
+              '  recognised : Bool',
+              '  deriving DecidableEq, Repr',
+              '',
+              'def helpers : List Helper := [']
+    lines += ['  ' + ',\n  '.join(f'⟨{_lean_str(n)}, {_lean_str(f)}, {b(r)}, {b(k)}⟩' for n, f, r, k in helpers)] if helpers else []
     lines += [']', '', 'end ParamVerif.Generated.RxOps', '']
     text = '\n'.join(lines)
     path = os.path.abspath(GENERATED)
@@ -1131,5 +1279,5 @@ def extract():
         tmp = path + '.tmp'
         open(tmp, 'w').write(text)
         os.replace(tmp, path)
-    return {'file': 'lean/ParamVerif/Generated/RxOps.lean', 'entries': len(rows),
+    return {'file': 'lean/ParamVerif/Generated/RxOps.lean', 'entries': len(rows), 'helpers': [h[0] for h in helpers],
             'unrecognised': [r[0] for r in rows if not r[5]], 'unresolved_function': [r[0] for r in rows if r[5] and not r[4]]}
